@@ -13,6 +13,19 @@ MANIFEST = {
 }
 
 
+import re
+_TOK = re.compile(r"a([0-9a-f]*);|z[0-9a-f]{2}\*(\d+);")
+
+
+def tree_needs(tt):
+    """(atoms, pairs, heap bytes) the harness needs to build a transport tree (upper bounds)"""
+    atoms = heap = 0
+    for m in _TOK.finditer(tt):
+        atoms += 1
+        heap += len(m.group(1)) // 2 if m.group(2) is None else int(m.group(2))
+    return atoms, tt.count("p"), heap
+
+
 def run(ctx):
     r = ctx.rng
     ctx.rule = ("generated programs (all sources, incl. arbitrary trees used as programs, deep lists, improper lists, huge shift "
@@ -48,12 +61,17 @@ def run(ctx):
             kw["h"] = r.randrange(1, 10 ** 6)
         elif k < 0.3:
             kw["enc"] = r.randrange(1, 10 ** 6)
+        na, np_, nh = [x + y for x, y in zip(tree_needs(p), tree_needs(e))]
+        # the allocator is pre-loaded so that building the inputs still fits (the harness unwraps
+        # there) and the RUN starts within a few nodes / bytes of a cap
+        if k < 0.3:
+            pass
         elif k < 0.4:
-            kw["ga"] = 62500000 - r.randrange(3, 60) - p.count(";")
+            kw["ga"] = 62500000 - 2 - na - r.randrange(1, 60)
         elif k < 0.5:
-            kw["gp"] = 62500000 - r.randrange(0, 60) - p.count("p")
+            kw["gp"] = 62500000 - np_ - r.randrange(0, 60)
         elif k < 0.6:
-            kw["lim"] = r.randrange(200, 5000) + len(p) // 2
+            kw["lim"] = nh + 1 + r.randrange(0, 3000)
         lines.append(run_line(p, e, f=f, m=m, **kw))
         ctx.histogram("allocator_setup", next(iter(kw), "fresh"))
     outs = vlib.run_impl("run", lines)
